@@ -82,6 +82,24 @@ CHECKS.update({
   design="DESIGN.md 3.2, 5 (C19)"),
 })
 
+CHECKS.update({
+ "C05": dict(engine="Expr",
+  technique="TLA+ Expr.tla: TLC checks shunting machine = reference grammar evaluator on every token string it writes (ShuntEqualsGrammar) and the literal laws (RespellPreservesValue, LitCaseSign); every string is exported with its predicted value or error and replayed into the real assembler as .dword/.word with constant, symbolic (defined before/after) and address-valued operands",
+  text="Model checking, exhaustive within bounds (all token strings <= 5 tokens over 9 operand classes and <= 4 over 20 classes in quick; <= 5/6/7 tokens over 20/7/4 classes in thorough) plus TLC-simulated long strings (to 30-40 tokens, nesting 5), each conformance-replayed; all literal spellings x radices x case as an exhaustive table.",
+  note="Trusted: Expr.tla's precedence and semantics table (authored from the property text), TLC with CommunityModules Bitwise, the renderer; values outside (-2^30, 2^30) are counted and not judged.",
+  design="DESIGN.md 3.4, 5 (C05)"),
+ "C07": dict(engine="Cli",
+  technique="TLA+ phase machine of the command line (Cli.tla) model-checked by TLC (FailIffError, NoOutputAfterError, WarningsAreInert, OutcomeAutomaton); TLC-exported scenarios (fault plan x report format x -W selection x output options) replayed through the real `python -m pdpy11`; ordered traces of in-process CLI runs validated by TLC against CliTrace.tla",
+  text="Model checking of the CLI phase machine bound to the code by scenario replay (about 800-1000 real command-line runs in quick, 16-22k in thorough: exit status, exact set of files created/modified, variants of -W/format byte-identical) and by trace validation of the order of reports and writes.",
+  note="Trusted: the scenario renderer and fault catalogue harness/faults.py; recognition of an error diagnostic by its text shape; in-process recorders; environment faults in the output phase are exempt; bare diagnostics on stdout with '-o -' are an open known finding.",
+  design="DESIGN.md 3.6, 4, 5 (C07)"),
+ "C17": dict(engine="LineCol",
+  technique="TLA+ LineCol.tla (closed form vs inductive scanner) model-checked and exhaustively replayed against Context.__repr__; a fault catalogue of 64 kinds with designated culprit tokens planted at every position x trivia x file location and replayed in-process and through the real CLI in bare format",
+  text="Exhaustive model-to-code conformance of line/column for all texts <= 6 (thorough <= 7) characters over 5 classes; exhaustive kinds x positions x trivia x locations for culprit positions (4.6k programs quick, 10.7k thorough); span well-formedness (file of the run, 0 <= start <= end <= len, one file) of every diagnostic.",
+  note="Trusted: the culprit designations in harness/faults.py (written before looking at the reports; five reconciled and listed in the evidence), pdpy11's own token convention for '#expr' and signed literals.",
+  design="DESIGN.md 3.5, 4, 5 (C17)"),
+})
+
 NOT_YET = {}
 
 
